@@ -175,6 +175,7 @@ type RefPeer struct {
 	MyReqs           []*myReq
 	chokesRecv       [][2]uint64 // (tick, epoch) of every choke received
 	lastChokeEpoch   int         // epoch of the last choke we sent on this connection (-1: none)
+	answerEpoch      map[blk]int // per block: epoch at which we last sent a piece or a reject naming it
 	rawAdvertised    bool        // the scenario sent advertisements of its own
 	everAdvertised   map[int]bool
 	everUnchoked     bool
@@ -254,6 +255,7 @@ func (p *RefPeer) resetConn() {
 	p.SysInterested, p.SysUnchokedUs = false, false
 	p.ChokingSys, p.UnchokeSent = true, false
 	p.lastChokeEpoch = -1
+	p.answerEpoch = nil
 	p.Outstanding = map[blk]*sysReq{}
 	p.actions = nil
 	p.everAdvertised = map[int]bool{}
@@ -509,6 +511,15 @@ func (p *RefPeer) run(initiate bool) {
 }
 
 func (p *RefPeer) Send(m refwire.Message) error {
+	// a reject or a piece names a block, not a request: the system may take
+	// it for the answer to whichever request for that block it has
+	// outstanding when it arrives
+	switch a := m.(type) {
+	case refwire.RejectRequest:
+		p.noteAnswerSent(blk{int(a.Index), a.Begin})
+	case refwire.Piece:
+		p.noteAnswerSent(blk{int(a.Index), a.Begin})
+	}
 	if p.W.rc.S.LogOn() {
 		if _, isPiece := m.(refwire.Piece); !isPiece {
 			p.W.rc.S.Logf("%s sends %s", p.Cfg.Name, briefMsg(m))
@@ -637,6 +648,23 @@ func (p *RefPeer) sendPreamble() {
 
 // DrawAdvertise draws the way a peer announces its pieces.
 func DrawAdvertise(st *simrt.Stream) int { return simrt.Pick(st, 0, 1, 2, 4) }
+
+func (p *RefPeer) noteAnswerSent(k blk) {
+	if p.answerEpoch == nil {
+		p.answerEpoch = map[blk]int{}
+	}
+	p.answerEpoch[k] = p.W.Epoch
+}
+
+// settledFor reports whether the outstanding request r may already be
+// settled on the system's side by an answer of ours that named its block:
+// one we sent no earlier than the quiescent point before r arrived (it may
+// have been in flight when the system sent r: the reject that answers the
+// cancel of an earlier request for the same block, for instance).
+func (p *RefPeer) settledFor(k blk, r *sysReq) bool {
+	e, ok := p.answerEpoch[k]
+	return ok && e >= r.Epoch
+}
 
 func (p *RefPeer) noteAdvertised() {
 	if p.everAdvertised == nil {
@@ -1139,7 +1167,7 @@ func (p *RefPeer) conform(m refwire.Message) {
 		// had sent when it *handled* the choke: an earlier request that
 		// arrived after the last quiescent point before which we did not
 		// choke may have been voided that way, and asking again is right)
-		if r := p.Outstanding[blk{i, m.Begin}]; r != nil && !r.Cancelled && !p.sentMisaddressed && (fast || p.lastChokeEpoch < r.Epoch) { // (a request the system has cancelled is no longer outstanding for it, answered or not: asking again is not a duplicate)
+		if r := p.Outstanding[blk{i, m.Begin}]; r != nil && !r.Cancelled && !p.sentMisaddressed && (fast || p.lastChokeEpoch < r.Epoch) && !p.settledFor(blk{i, m.Begin}, r) { // (a request the system has cancelled is no longer outstanding for it, answered or not: asking again is not a duplicate)
 			hist := ""
 			for _, r := range p.ReqLog {
 				if r.Req.Index == m.Index && r.Req.Begin == m.Begin {
@@ -1162,8 +1190,8 @@ func (p *RefPeer) conform(m refwire.Message) {
 		// requests that arrived after a quiescent point that followed our
 		// last choke are known not to have been voided by it)
 		nout := 1
-		for _, r := range p.Outstanding {
-			if (fast || p.lastChokeEpoch < r.Epoch) && !r.Cancelled {
+		for k, r := range p.Outstanding {
+			if (fast || p.lastChokeEpoch < r.Epoch) && !r.Cancelled && !p.settledFor(k, r) {
 				nout++
 			}
 		}
